@@ -11,7 +11,7 @@ pub fn targeted(seed: u64, tier: &str) -> Vec<Doc> {
     let n = (if tier == "thorough" { 3000 } else { 300 }) * budget_mult();
     for i in 0..n {
         let units = |rng: &mut Rng| *rng.pick(&["objectBoundingBox", "userSpaceOnUse"]);
-        let doc = match i % 8 {
+        let doc = match i % 10 {
             0 => {
                 // chains of clip paths and masks of depth 1..5, shared by several elements
                 let depth = 1 + rng.below(5) as usize;
@@ -126,6 +126,42 @@ pub fn targeted(seed: u64, tier: &str) -> Vec<Doc> {
                     deep("A"), deep("B"), deep("M")
                 )
             }
+            8 => {
+                // nodes that are in the tree but not painted (hidden layers, zero opacity, off-canvas) still refer to
+                // their definitions: those are reachable and belong to the collections
+                let hide = *rng.pick(&[r#" visibility="hidden""#, r#" opacity="0""#, r#" transform="translate(5000 0)""#, r#" visibility="collapse""#]);
+                let inner = if rng.chance(1, 2) { r#" visibility="visible""# } else { "" };
+                format!(
+                    r##"{HDR}<defs><linearGradient id="lgh"><stop offset="0" stop-color="red"/><stop offset="1"/></linearGradient><radialGradient id="rgh"><stop offset="0"/><stop offset="1" stop-color="red"/></radialGradient><pattern id="pth" width="6" height="6" patternUnits="userSpaceOnUse"><rect width="3" height="3"/></pattern><clipPath id="cph"><rect width="30" height="30"/></clipPath><mask id="mkh"><rect width="30" height="30" fill="white"/></mask><filter id="flh"><feOffset dx="1"/></filter></defs><g id="layer"{hide}><rect id="h1" width="20" height="20" fill="url(#lgh)" stroke="url(#pth)"/><circle id="h2" cx="50" cy="50" r="10" fill="url(#rgh)"{inner}/><g id="h3" clip-path="url(#cph)" mask="url(#mkh)" filter="url(#flh)"><rect width="9" height="9"/></g><text id="h4" x="5" y="90" font-size="10" fill="url(#lgh)">t</text></g><rect id="shown" x="80" width="10" height="10"/></svg>"##
+                )
+            }
+            9 => {
+                // a definition shared by several elements, where a LATER user has descendants with definitions of
+                // their own that nothing else refers to (collections are built by one walk over all users)
+                let kind = rng.below(3);
+                let (attr, def) = match kind {
+                    0 => ("clip-path", r#"<clipPath id="sh"><rect width="100" height="100"/></clipPath>"#),
+                    1 => ("mask", r#"<mask id="sh" maskUnits="userSpaceOnUse" maskContentUnits="userSpaceOnUse" x="0" y="0" width="100" height="100"><rect width="100" height="100" fill="white"/></mask>"#),
+                    _ => ("filter", r#"<filter id="sh" filterUnits="userSpaceOnUse" x="0" y="0" width="110" height="110"><feOffset dx="1"/></filter>"#),
+                };
+                let users = 2 + rng.below(3);
+                let mut body = String::new();
+                for j in 0..users {
+                    let own = if j > 0 || rng.chance(1, 3) {
+                        format!(r##"<rect x="{}" width="8" height="8" clip-path="url(#in{j}c)" fill="url(#in{j}g)"/><g mask="url(#in{j}m)" filter="url(#in{j}f)"><circle r="4" fill="url(#in{j}p)"/></g>"##, j * 10)
+                    } else {
+                        String::new()
+                    };
+                    body += &format!(r##"<g id="u{j}" {attr}="url(#sh)"><rect y="{}" width="12" height="12"/>{own}</g>"##, j * 15);
+                }
+                let mut defs = String::from(def);
+                for j in 0..users {
+                    defs += &format!(
+                        r##"<clipPath id="in{j}c"><rect width="6" height="6"/></clipPath><linearGradient id="in{j}g"><stop offset="0" stop-color="red"/><stop offset="1"/></linearGradient><mask id="in{j}m" maskUnits="userSpaceOnUse" x="0" y="0" width="50" height="50"><rect width="50" height="50" fill="white"/></mask><filter id="in{j}f" filterUnits="userSpaceOnUse" x="-5" y="-5" width="50" height="50"><feOffset dy="1"/></filter><pattern id="in{j}p" width="4" height="4" patternUnits="userSpaceOnUse"><rect width="2" height="2"/></pattern>"##
+                    );
+                }
+                format!(r##"{HDR}<defs>{defs}</defs>{body}</svg>"##)
+            }
             _ => {
                 // text with gradients/patterns (flattened clones) and nested SVG images
                 // (the nested document has context paint of its own: it is a finished tree when the outer pass meets it)
@@ -137,7 +173,7 @@ pub fn targeted(seed: u64, tier: &str) -> Vec<Doc> {
                 )
             }
         };
-        v.push(Doc { class: format!("targeted-{}", i % 8), path: None, data: doc.into_bytes(), dpi: 96.0 });
+        v.push(Doc { class: format!("targeted-{}", i % 10), path: None, data: doc.into_bytes(), dpi: 96.0 });
     }
     for f in std::fs::read_dir("/verif/findings/C05").into_iter().flatten().flatten() {
         if let Ok(data) = std::fs::read(f.path()) {
